@@ -35,3 +35,4 @@ func setYieldHook(f func(string)) bool { formula.VerifYieldHook = f; return true
 func setBlockHook(f func())            { formula.VerifBlockHook = f }
 func globalsDump() string              { return formula.VerifGlobals() }
 func disableStepHook()                 { formula.VerifStepHook = nil }
+func resetPools()                       { formula.VerifResetPools() }
